@@ -12,7 +12,7 @@ Not decided: equality of the embedded analysis results after reload (value level
 from engine.cfgq import call_sites, paths_avoiding
 from engine.facts import AnalysisBroken
 
-UNITS = ['CCL', 'RSlang2']
+UNITS = ['CCL', 'RSlang2', 'cclLang']
 
 # keys that are written but deliberately not read back: (type, key path) -> reason
 DERIVED = {
@@ -444,4 +444,9 @@ def _independent_reads(db, rep):
         r8.violation('to_json(%s)' % ptype, f.loc(ap), '`%s` appends to a JSON array inside a loop over `%s`, a hash container: the order of the array depends on the insertion history, the loader re-inserts in document order, so the array comes out in a different order after every load' % ((ap.get('txt') or '')[:50], (f.stmts[lp['range']].get('txt') or '')[:40]))
     if n_w and not hits:
         r8.ok('writers', '%d to_json writers: no JSON array is filled from a hash container' % n_w)
+    # ---------------------------------------------------------------- r11
+    r11 = rep.rule('r11', 'RESOLUTION-IDEMPOTENT (hosted here, a clause of C17 too): loading re-resolves every term (Thesaurus::UpdateState, OnTermChange interpreted); doing it again changes no resolved text, '
+                          'also when term references form a loop - otherwise every load / save cycle writes a different document', 2)
+    from rules import C17
+    C17.resolution_idempotent_rule(db, r11)
     rep.note('key_reads', n_reads)
